@@ -109,6 +109,14 @@ static const C15TolRow C15_TOL[] = {
   {"jacobi", "kp2-below-1e-100", 64},                                 // known finding (am inaccurate for tiny k'); sncndn observed <= 1 eps
   {"jacobi", "moderate", 16},                                            // observed 0.824 eps
   {"jacobi", "tiny-complement", 32768},                                  // observed 7.6e+03 eps
+  // derivative outputs (subcheck auxlat-derivative), calibrated on the thorough lattice of the unchanged tree
+  {"aux.derivative", "small", 16},                                       // observed 4.5 eps
+  {"aux.derivative", "moderate", 16},                                    // observed 3.8 eps
+  {"aux.derivative", "extreme", 16384},                                  // observed 3.5e+03 eps (xi, b/a = 100); mu, chi 252 (b/a = 0.01)
+  {"daux.coincident", "small", 16},                                      // observed 1.3 eps
+  {"daux.coincident", "moderate", 64},                                   // observed 13.3 eps (DIsometric, b/a = 1/4)
+  {"daux.coincident", "extreme", 1024},                                  // observed 255 eps (DRectifying, b/a = 0.01); DIsometric on b/a <= 0.1: known finding
+  {"daux.dconvert", "small", 128},                                       // observed 29.2 eps (chi -> phi)
   {"*", "*", 64},
 };
 inline double C15tol(const std::string& pred, const std::string& regime0) {
